@@ -16,7 +16,34 @@ package docx
 //@   callsite strings.Repeat(s, count) requires level_1_to_6: s == "#" ==> 1 <= count && count <= 6
 
 // ---- C15: everything written into a pipe table is a structural literal or escaped cell text ----
+// total number of columns a row occupies: every cell counts its span (at least 1), covered cells included
+//@ spec rec prefix func spanSum(cells []ParsedTableCell, n int) int = n <= 0 ? 0 : spanSum(cells, n - 1) + (cells[n-1].ColSpan < 1 ? 1 : cells[n-1].ColSpan)
+
+// Row arity: `cells` counts the cell terminators written; every row - and the separator line after the first row -
+// gets exactly colCount of them, whatever spans and covered cells it contains.
 //@ func (*ParsedTable) ToMarkdown
 //@   property C15
-//@   flags callsites
+//@   flags nosafety
+//@   count cells: WriteString(s) when s == " |" || s == " --- |"
 //@   callsite WriteString(s) requires cell_or_structure: s == "|" || s == " " || s == " |" || s == "\n" || s == " --- |" || (forall k int :: {s[k]} 0 <= k && k < len(s) ==> s[k] != 10 && (s[k] == '|' ==> k >= 1 && s[k-1] == 92))
+//@   loop 0:
+//@     invariant colCount >= 0 && forall r int :: {pt.Rows[r]} 0 <= r && r < $i ==> spanSum(pt.Rows[r].Cells, len(pt.Rows[r].Cells)) <= colCount
+//@   loop 1:
+//@     invariant count == spanSum(row.Cells, $i)
+//@   loop 2:
+//@     invariant colCount >= 0 && forall r int :: {pt.Rows[r]} 0 <= r && r < len(pt.Rows) ==> spanSum(pt.Rows[r].Cells, len(pt.Rows[r].Cells)) <= colCount
+//@     step every_row_has_colCount_cells: cells == prev(cells) + colCount + (rowIdx == 0 ? colCount : 0)
+//@   loop 3:
+//@     invariant colIdx == spanSum(row.Cells, $i) && cells == entry(cells) + colIdx
+//@   loop 4:
+//@     invariant 0 <= k && k <= span && cells == entry(cells) + k
+//@     decreases span - k
+//@   loop 5:
+//@     invariant 1 <= k && k <= span && cells == entry(cells) + k - 1
+//@     decreases span - k
+//@   loop 6:
+//@     invariant colIdx <= colCount && cells - colIdx == entry(cells) - entry(colIdx)
+//@     decreases colCount - colIdx
+//@   loop 7:
+//@     invariant 0 <= i && i <= colCount && cells == entry(cells) + i
+//@     decreases colCount - i
